@@ -170,7 +170,22 @@ fn one_case(prop: &str, g: &mut Gen, cx: &mut Ctx) {
     if one_case_global(prop, g, cx) {
         return;
     }
-    let (ct, oc) = g.cal();
+    let (mut ct, mut oc) = g.cal();
+    if prop == "C02" {
+        // C02 is about the two proleptic calendars only
+        if g.rng.chance(1, 2) {
+            ct = "J".into();
+            oc = OCal::Julian;
+        } else {
+            ct = "G".into();
+            oc = OCal::Gregorian;
+        }
+    }
+    if prop == "C03" && !matches!(oc, OCal::Reforming(_)) {
+        let (c2, o2) = g.reforming_cal();
+        ct = c2;
+        oc = o2;
+    }
     let Some(cal) = mk(&oc) else {
         cx.check(false, || format!("calendar {ct} could not be built"));
         return;
